@@ -3,7 +3,7 @@
     (index out of bounds, unwrap on None, subtraction underflow, "symbol type mismatch", the
     explicit panic!s).  Termination: LR/Termination.v. *)
 From Coq Require Import List ZArith.
-From LV Require Import LR.Driver LR.Validator LR.Safety LR.Soundness LR.Completeness LR.Locality LR.NoPanic LR.Termination LR.RecoverySound LR.NoPanicRec LR.Main.
+From LV Require Import LR.Driver LR.Validator LR.Safety LR.Soundness LR.Completeness LR.Locality LR.NoPanic LR.Termination LR.RecoverySound LR.NoPanicRec LR.MonoRec LR.TerminationRec LR.Main.
 From LV Require Import Lex.Regex Lex.LexModel Lex.LexProps.
 Import ListNotations.
 
@@ -90,3 +90,23 @@ Theorem C08_parser_never_panics_with_recovery : forall A C,
   drive A orc fuel (map IOk w) = (r, s) -> r <> RPanic.
 Proof. exact no_panic_with_recovery. Qed.
 Print Assumptions C08_parser_never_panics_with_recovery.
+
+(** termination with error recovery: on validated tables, with or without `!`, for every input and every
+    behaviour of fallible actions a budget exists beyond which the driver never answers "budget
+    exhausted".  Inside error_recovery the reductions under the error lookahead, every accepts
+    simulation of the recovery-state scan and the token-dropping loop end; across recoveries, a
+    recovery hands back a lookahead the simulation has shown consumable from the new stack, so the
+    parser shifts it (or ends) before it can fail again -- there is no recovery loop. *)
+Theorem C08_parser_terminates_on_every_input_with_recovery : forall A C,
+  shape A C = true -> exact A C = true -> terminates A C = true ->
+  forall orc input, Forall (RecoverySound.item_ok A) input ->
+  exists n, forall fuel, n <= fuel -> fst (drive A orc fuel input) <> RFuel.
+Proof. exact parser_terminates_rec. Qed.
+Print Assumptions C08_parser_terminates_on_every_input_with_recovery.
+
+(* for ANY tables, with or without recovery: an answer other than "budget exhausted" is the answer under
+   every larger budget *)
+Theorem C08_answers_do_not_depend_on_the_budget_with_recovery : forall A orc f input r s,
+  drive A orc f input = (r, s) -> r <> RFuel -> forall f', f <= f' -> drive A orc f' input = (r, s).
+Proof. exact drive_mono_rec. Qed.
+Print Assumptions C08_answers_do_not_depend_on_the_budget_with_recovery.
